@@ -477,6 +477,14 @@ func work(ctx *runner.Ctx) {
 			}
 		}
 	}
+	// larger single batches (block-wise processing inside one Send/Receive), two patterns
+	for _, n := range []int{127, 128, 129, 255, 256, 257, 300, 511, 512, 513, 1025} {
+		for _, p := range []string{"lfsr", "one"} {
+			cases = append(cases, cs{Variant: "co", Sizes: []int{n}, Pattern: p, Seed: seed})
+		}
+		cases = append(cases, cs{Variant: "co-helpers:P-256", Sizes: []int{n}, Pattern: "lfsr", Seed: seed})
+	}
+	cases = append(cases, cs{Variant: "co", Sizes: []int{257, 3, 300}, Pattern: "lfsr", Seed: seed})
 	cases = append(cases, cs{Variant: "co", Sizes: []int{3, 9}, Pattern: "lfsr", Seed: seed})
 	for _, n := range []int{1, 8, 65, 129, 513} {
 		cases = append(cases, cs{Variant: "cot-co", Sizes: []int{n}, Pattern: "lfsr", Seed: seed})
@@ -484,9 +492,9 @@ func work(ctx *runner.Ctx) {
 		cases = append(cases, cs{Variant: "rot-co", Sizes: []int{n}, Pattern: "lfsr", Seed: seed})
 	}
 	// RSA (key generation dominates)
-	rsaSizes := []int{1, 2, 9}
+	rsaSizes := []int{1, 2, 9, 65, 257}
 	if !ctx.Quick() {
-		rsaSizes = []int{1, 2, 3, 8, 9, 17, 33}
+		rsaSizes = []int{1, 2, 3, 8, 9, 17, 33, 65, 129, 257, 513}
 		cases = append(cases, cs{Variant: "rsa2048", Sizes: []int{3}, Pattern: "alt1", Seed: seed})
 	}
 	for _, n := range rsaSizes {
